@@ -155,3 +155,26 @@ add("C05", "exploration", "property-based testing (Hypothesis): grammar-generate
     "Letters-only non-overlapping names, non-replicated loop-binding/condition producers, disjoint stage ranges for two "
     "loops; iterations are instantiated by a driver mirroring Controller._instantiate_next_dowhile_iteration.",
     "DESIGN.md section 3, C05")
+
+add("C06", "exploration", "property-based testing (Hypothesis): 'fold' generator (abstract flat dataflow folded into nested "
+    "workflows/parameters) with the flat model as oracle; single-fault mutation sub-check for invalid namespaces",
+    "An abstract flat dataflow (<=8 tagged leaves over <=3 component templates, edges with path and method) is drawn "
+    "first and then folded into nested workflows to depth 4 (templates instantiated several times, values travelling "
+    "inline or through parameters with defaults/overrides, every reference spelling, reused step names). "
+    "namespace_to_flowir must yield one uniquely named component per leaf whose references (parsed), arguments and "
+    "executable equal the flat model, leave no parameter reference and validate cleanly. 23 kinds of invalidating "
+    "mutations must be rejected by pydantic.ValidationError or a DSLInvalidError with located underlying errors - any "
+    "other exception, acceptance or hang (CPU-time watchdog) is a violation.",
+    "Not generated: replicate/aggregate in DSL, key outputs/interface, input./data. entry parameters, dict-valued "
+    "parameters, several references in one parameter value.", "DESIGN.md section 3, C06")
+add("C16", "exploration", "property-based testing (Hypothesis): pairs of instantiated experiments differing in exactly one "
+    "aspect; independent 'work descriptor' model decides whether hashes must be equal",
+    "An abstract workflow (1-5 components, references to component files/directories/stdout, input/, data/, external "
+    "paths, all methods, both spellings, images, replication, confusable and digit-ending names) and a single-aspect "
+    "mutation of it are instantiated as real Experiments in different directories; for all node pairs across both, "
+    "strong hashes must be equal exactly when the independent work descriptors (executable, image, arguments with "
+    "references replaced by content/producer descriptors, consumed (content, method) multiset) are equal; no hash while "
+    "an input is missing; hashes stable across reads and memoization_reset; fuzzy hashes ignore produced-file contents "
+    "and follow producer fuzzy hashes. One open known finding (directory contents) is excluded by signature.",
+    "Files produced by components are written by the harness; the contrived separator-less serialisation collision is "
+    "outside the generated domain.", "DESIGN.md section 3, C16")
